@@ -140,17 +140,25 @@ def r01_1(ctx):
             key = {"Zi": "zf"}.get(nm, nm)
             ok = len(apps) == 1 and is_res(apps[0].args[0], key) and sc.within(apps[0], loop) and not sc.guards(apps[0])
         ctx.check(ok, "discrete_system output %s" % nm, detail="per-step output not collected once per step in order", expected="hcat of one res['..'] per step", found=ast.unparse(o) if o is not None else None, fi=f)
-    # which step map: discrete model, built-in explicit scheme, CasADi integrator
+    # which step map: discrete model, built-in explicit scheme, CasADi integrator (canonical form: one conditional expression)
     sel = [d for d in sc.defs.get(ast.unparse(c.func), []) if d.kind == "assign"] if isinstance(c.func, ast.Name) else []
-    texts = sorted(ast.unparse(d.value) for d in sel)
-    want = sorted(["stage._diffeq()", "getattr(self, 'intg_' + self.intg)(stage._ode(), X0, U, P, Z)".replace("X0", in_of.get("x0", "X0")),
-                   "self.intg_builtin(stage._ode(), %s, U, P, Z)" % in_of.get("x0", "X0")])
-    ctx.check(len(sel) == 3 and texts[2] == "stage._diffeq()", "discrete_system step-map selection", detail="step-map dispatch", expected="set_next model -> _diffeq; intg_<name> if defined; else CasADi integrator",
-              found=texts, fi=f, sample={"dispatch": texts})
+    table = []
+
+    def flat(v, conds):
+        if isinstance(v, ast.IfExp):
+            flat(v.body, conds + [(ast.unparse(v.test), True)])
+            flat(v.orelse, conds + [(ast.unparse(v.test), False)])
+        else:
+            table.append((conds, ast.unparse(v)))
     for d in sel:
-        if "_diffeq" in ast.unparse(d.value):
-            gs = [(ast.unparse(t), p) for t, p in sc.guards(d.stmt)]
-            ctx.check(gs == [("stage._state_next", True)], "discrete-time model used iff set_next was declared", detail="dispatch guard", expected="if stage._state_next", found=gs, fi=f)
+        gs = [(ast.unparse(t), p) for t, p in sc.guards(d.stmt)]
+        flat(d.value, gs)
+    x0n = in_of.get("x0", "X0")
+    want = [([("stage._state_next", True)], "stage._diffeq()"),
+            ([("stage._state_next", False), ("hasattr(self, 'intg_' + self.intg)", True)], "getattr(self, 'intg_' + self.intg)(stage._ode(), %s, U, P, Z)" % x0n),
+            ([("stage._state_next", False), ("hasattr(self, 'intg_' + self.intg)", False)], "self.intg_builtin(stage._ode(), %s, U, P, Z)" % x0n)]
+    ctx.check(table == want, "discrete_system step-map selection", detail="step-map dispatch", expected="set_next model -> _diffeq; intg_<name> if defined; else CasADi integrator",
+              found=str(table)[:300], fi=f, sample={"dispatch": [t[1] for t in table]})
 
 
 def ctor_pairs(ctx, fi):
